@@ -168,12 +168,14 @@ def reject_checks(ctx, rng):
     from rtflite.strwidth import get_string_width as gsw
     bads = [("font", f) for f in [0, 11, -1, 99, "Comic Sans", "arial", "", "Times"]] + \
            [("unit", u) for u in ["cm", "pt", "", "IN", "inch"]]
+    bads = bads * 3
     for kind, val in bads:
         kw = {"font": 1, "unit": "in"}
         kw[kind] = val
         ctx.count("reject_checks")
         try:
-            r = gsw(rand_string(rng) or "x", font_size=10, **kw)
+            # the empty string is measured like any other: bad arguments are still refused
+            r = gsw(rng.choice(["", "", rand_string(rng) or "x"]), font_size=10, **kw)
         except ValueError:
             continue
         except Exception as e:  # noqa
